@@ -5,7 +5,6 @@ import (
 	"sort"
 	"strconv"
 	"strings"
-	"sync"
 	"time"
 
 	"github.com/llir/llvm/asm"
@@ -142,8 +141,23 @@ func moduleLayer(rep *mbt.Report, tier string, found, tfound map[string]*enumTyp
 				input: fmt.Sprintf("declare cc %d void @f()\n", n)})
 		}
 	}
-	var mu sync.Mutex
-	_ = mu
+	// spellings that are in no keyword table and go through the hand-written special cases of the
+	// printers: the default TLS model, plain uwtable, numeric forms of the DWARF enumerations and flags
+	for _, t := range []struct{ name, text string }{
+		{"thread_local (default model)", "@g = thread_local global i32 0\n"},
+		{"uwtable (default kind)", "declare void @f() uwtable\n"},
+		{"DIFlag numeric", "!n = !{!0}\n!0 = !DIBasicType(name: \"t\", flags: 64)\n"},
+		{"DIFlag numeric accessibility", "!n = !{!0}\n!0 = !DIBasicType(name: \"t\", flags: 3)\n"},
+		{"DISPFlag numeric", "!n = !{!0}\n!0 = !DISubprogram(name: \"f\", spFlags: 4)\n"},
+		{"DwarfTag numeric, known", "!n = !{!0}\n!0 = !GenericDINode(tag: 17)\n"},
+		{"DwarfTag numeric, unknown", "!n = !{!0}\n!0 = !GenericDINode(tag: 65000)\n"},
+		{"DwarfAttEncoding numeric", "!n = !{!0}\n!0 = !DIBasicType(name: \"t\", size: 32, encoding: 5)\n"},
+		{"DwarfCC numeric", "!n = !{!0}\n!0 = !DISubroutineType(cc: 1, types: !1)\n!1 = !{}\n"},
+	} {
+		if wanted("text", "", 0, t.name) {
+			cases = append(cases, &modCase{fam: "", siteNm: "text:" + t.name, name: t.name, input: t.text})
+		}
+	}
 	llvmoracle.Parallel(len(cases), func(i int) {
 		c := cases[i]
 		if c.site == nil { // text input
@@ -154,7 +168,10 @@ func moduleLayer(rep *mbt.Report, tier string, found, tfound map[string]*enumTyp
 			}
 			c.shape = "text"
 			roundTrip(c, canon1, nil, c.name)
-			if c.fail != nil && strings.HasSuffix(c.fail.Signature, "|LLVM reads the printed module differently|"+c.name) {
+			if c.fail != nil && c.fam == "" {
+				c.fail.Case = replayCase{Layer: "text", Site: c.name, Text: c.input}
+			}
+			if c.fail != nil && c.fam == "CallingConv" && strings.HasSuffix(c.fail.Signature, "|LLVM reads the printed module differently|"+c.name) {
 				c.fail.Signature = "C18|callingconv|cc N -> keyword of different convention|" + c.name
 				c.fail.Case = replayCase{Layer: "cc", Fam: "CallingConv", V: c.v, Site: c.siteNm, Text: c.input}
 			}
@@ -198,10 +215,12 @@ func moduleLayer(rep *mbt.Report, tier string, found, tfound map[string]*enumTyp
 		if c.unverified {
 			unverified++
 		}
-		if famExercised[c.fam] == nil {
-			famExercised[c.fam] = map[uint64]bool{}
+		if c.fam != "" {
+			if famExercised[c.fam] == nil {
+				famExercised[c.fam] = map[uint64]bool{}
+			}
+			famExercised[c.fam][c.v] = true
 		}
-		famExercised[c.fam][c.v] = true
 		if c.fail != nil {
 			rep.Fail(*c.fail)
 		}
